@@ -693,6 +693,72 @@ fn observe(bytes: &[u8]) -> String {
             Err(_) => vec![],
         },
     ));
+    // the directory as a whole: what all_streams() yields (BTreeMap order), the index print() reports for the served
+    // entry, and get_raw_stream of every type present; then unknown_streams() with their vendor
+    let mut index_of = std::collections::BTreeMap::new();
+    {
+        let mut buf = Vec::new();
+        dump.print(&mut buf).unwrap();
+        let text = String::from_utf8_lossy(&buf).to_string();
+        let mut in_streams = false;
+        for line in text.lines() {
+            if line.starts_with("Streams:") {
+                in_streams = true;
+                continue;
+            }
+            if !in_streams {
+                continue;
+            }
+            if let Some(rest) = line.strip_prefix("  stream type 0x") {
+                let ty = u32::from_str_radix(rest.split(' ').next().unwrap_or(""), 16).ok();
+                let idx = rest.rsplit(' ').next().and_then(|x| x.parse::<i128>().ok());
+                if let (Some(ty), Some(idx)) = (ty, idx) {
+                    index_of.insert(ty, idx);
+                }
+            }
+        }
+    }
+    secs.push((
+        2,
+        dump.all_streams()
+            .map(|d| {
+                let mut it: Item = vec![
+                    d.stream_type as i128,
+                    index_of.get(&d.stream_type).copied().unwrap_or(-777),
+                    d.location.data_size as i128,
+                    d.location.rva as i128,
+                ];
+                match dump.get_raw_stream(d.stream_type) {
+                    Ok(b) => {
+                        it.push(2);
+                        blob4(b, &mut it);
+                    }
+                    Err(Error::StreamNotFound) => it.push(0),
+                    Err(_) => it.push(1),
+                }
+                it
+            })
+            .collect(),
+    ));
+    secs.push((
+        2,
+        dump.unknown_streams()
+            .map(|u| {
+                vec![
+                    u.stream_type as i128,
+                    u.location.data_size as i128,
+                    u.location.rva as i128,
+                    match u.vendor {
+                        "Official" => 0,
+                        "Google Extension" => 1,
+                        "Mozilla Extension" => 2,
+                        "Unknown Extension" => 3,
+                        _ => -777,
+                    },
+                ]
+            })
+            .collect(),
+    ));
     fmt_sections(&secs)
 }
 
